@@ -129,6 +129,28 @@ def rule_rewriters(ctx: Ctx, repo: Repo, tier: str) -> None:
                 ctx.check(admits(res, t), "R-C07.1", fi.fq, "the result admits the input", construct=f"{show(t)} -> {show(res)}")
 
 
+def rule_no_memory(ctx: Ctx, repo: Repo) -> None:
+    """R-C07.3: a rewriter's answer depends on (its own configuration, the type) only - not on what another
+    instance rewrote earlier in the same process (module-level objects persist across the two calls)."""
+    fi = repo.method(repo.cls(TY, "RewriteLargeUnion"), "rewrite_Union")
+    p = fi.positional_params()[1]
+    unions = [union(RW.INT, RW.STR, RW.FLT), union(RW.L1, RW.L2, RW.OTH), union(RW.INT, RW.STR, RW.FLT, RW.BYT), union(g("Tuple", RW.INT), g("Tuple", RW.INT, RW.INT), g("Tuple", RW.INT, RW.INT, RW.INT)),
+              union(RW.INT, RW.STR, RW.FLT, RW.BYT, NONE_T), union(g("List", RW.INT), RW.INT, NONE_T)]
+    n = 0
+    for u in unions:
+        for first, second in ((2, 5), (5, 2), (2, 2)):
+            alone = RewriterScenario(repo, "RewriteLargeUnion", "rewrite_Union", {"max_union_len": K(second)}).result({p: u})
+            sc1 = RewriterScenario(repo, "RewriteLargeUnion", "rewrite_Union", {"max_union_len": K(first)})
+            sc1.result({p: u})
+            sc2 = RewriterScenario(repo, "RewriteLargeUnion", "rewrite_Union", {"max_union_len": K(second)})
+            after = sc2.result({p: u}, carry=sc1.last_state)
+            n += 1
+            ctx.check(after == alone, "R-C07.3", fi.fq,
+                      "what RewriteLargeUnion(n) returns for a union does not depend on an earlier rewrite by an instance with another maximum",
+                      construct=f"{show(u)}: RewriteLargeUnion({second}) gives {show(after)} after RewriteLargeUnion({first}) ran, {show(alone)} on its own")
+    ctx.floor("R-C07.3", "two-call sequences", n, 15)
+
+
 def _dispatch(repo: Repo, cname: str, attrs: Dict[str, V], t: V) -> V:
     """Top-level dispatch of GenericTypeRewriter.rewrite for the abstract type t and rewriter class cname."""
     ci = repo.cls(TY, cname)
@@ -260,5 +282,6 @@ def run(ctx: Ctx, repo: Repo, tier: str) -> None:
               "Tuple[()].__args__ == () and bare Tuple has no __args__ (CPython >= 3.11)")
     ctx.assume("members of the union are leaves for self.rewrite (inner recursion is decided by the container-recursion rule)")
     rule_rewriters(ctx, repo, tier)
+    rule_no_memory(ctx, repo)
     rule_chain(ctx, repo)
     rule_container_recursion(ctx, repo)
